@@ -24,8 +24,13 @@ def _variables_xml(variables):
             body += '<non_negative/>'
         if v.get('gf'):
             xs, ys = zip(*v['gf'])
-            body += '<gf><xscale min="%s" max="%s"/><yscale min="%s" max="%s"/><ypts>%s</ypts></gf>' % (
-                xs[0], xs[-1], min(ys), max(ys), ','.join(repr(float(y)) for y in ys))
+            if v.get('xpts'):
+                # explicit (possibly unevenly spaced) x points
+                body += '<gf><yscale min="%s" max="%s"/><xpts>%s</xpts><ypts>%s</ypts></gf>' % (
+                    min(ys), max(ys), ','.join(repr(float(x)) for x in xs), ','.join(repr(float(y)) for y in ys))
+            else:
+                body += '<gf><xscale min="%s" max="%s"/><yscale min="%s" max="%s"/><ypts>%s</ypts></gf>' % (
+                    xs[0], xs[-1], min(ys), max(ys), ','.join(repr(float(y)) for y in ys))
         vs.append('<%s name="%s">%s</%s>' % (v['kind'], xml_escape(v['name']), body, v['kind']))
     return ''.join(vs)
 
